@@ -658,6 +658,13 @@ def _work_conn(item):
         return (cred, label_of(cch), label_of(sch), "invalid", None, None)
     base_cred = cred.split("+")[0]
     must, why = must_connect(cst, sst, base_cred)
+    psk_lists = None
+    if "+psk:" in cred:
+        # external PSK lists (identity order matters to the server's scan)
+        _, cl, sl = cred.split(":")
+        mk = lambda names: [(n.encode(), bytes([0x50 + ord(n[0]) % 16]) * 32,
+                             "sha256") for n in names if n]   # noqa
+        psk_lists = (mk(cl.split(",")), mk(sl.split(",")))
     if cred.endswith("+clientauth-ecdsa"):
         # the client's own certificate has to be usable as well: its key
         # type's schemes as listed by the server and enabled on the client
@@ -670,9 +677,11 @@ def _work_conn(item):
         sc = S.Scen("c19/%s" % cred, cred=base_cred, client_cred="c_rsa",
                     req_cert=True)
     else:
-        sc = S.Scen("c19/%s" % cred, cred=cred)
-    pair, out = S.connect(sc, seed=seed, csettings=build(cch),
-                          ssettings=build(sch))
+        sc = S.Scen("c19/%s" % cred, cred=base_cred)
+    cs_, ss_ = build(cch), build(sch)
+    if psk_lists is not None:
+        cs_.pskConfigs, ss_.pskConfigs = psk_lists
+    pair, out = S.connect(sc, seed=seed, csettings=cs_, ssettings=ss_)
     ok = out["C"].status == "ok" and out["S"].status == "ok"
     outc = "ok" if ok else (repr(out["C"].sig()), repr(out["S"].sig()))
     if ok and must:
@@ -763,6 +772,16 @@ def run_connection(res, tier, seed):
             items.append((scred + "+clientauth-ecdsa", (m12,), b + (m12,),
                           seed))
             items.append((scred + "+clientauth-ecdsa", (), b, seed))
+    # external PSKs next to the certificate: every pair of identity lists
+    # over {a, b} (order included); the server holds a certificate, so a
+    # connection is demanded whether or not an identity is shared
+    lists = ["", "a", "b", "a,b", "b,a"]
+    for cl in lists:
+        for sl in lists:
+            for mods in ((), (("psk_modes", [v for v in dict(M)["psk_modes"]
+                                             ][0]),)):
+                items.append(("rsa+psk:%s:%s" % (cl, sl), (), (), seed))
+                break
     demanded = 0
     n = 0
     for (cred, la, lb, outc, must, why) in pmap(_work_conn, items):
